@@ -35,7 +35,11 @@ def site_forms(arch, rng, per_mnemonic):
     return sites
 
 def variants(stmt_with_sym, v, chained, org=None):
-    if chained == 2:
+    if isinstance(chained, int) and chained > 2:
+        # a long chain of definitions, each resting on the next, the last one holding the value
+        n = chained
+        defs = "".join("@defl vv%d, vv%d + 1\n" % (k, k + 1) for k in range(1, n)) + "@defn vv%d, %d\n" % (n, v - (n - 1))
+    elif chained == 2:
         # a diamond: vv2 is reached twice through vv3 and vv4 (and twice inside vv4)
         defs = "@defl vv1, vv3 + vv4\n@defl vv3, vv2\n@defl vv4, vv2 - vv2\n@defn vv2, %d\n" % v
     elif chained:
@@ -104,6 +108,10 @@ def run(ck):
             for v in (5, 0x42):
                 for ch in (False, True):
                     triples.append((arch, stmt, v, ch) + variants(stmt, v, ch, org=org))
+    # long chains (the property speaks of chains of any length)
+    for arch, stmt in [("z80", "@db vv1"), ("z80", "@dw vv1"), ("z80", " ld a, vv1"), ("6502", " lda #vv1"), ("sm83", " ld hl, vv1"), ("z80", "@assert vv1 == $42")]:
+        for n in (33, 64, 65, 66, 100, 150):
+            triples.append((arch, stmt, 0x42, n) + variants(stmt, 0x42, n))
     # sequences: several deferred items in one program (links are resolved in order; a passing deferred @assert, a
     # fill, an operand must not disturb the ones after it), some ending in a failing deferred @assert / range error
     SEQ = {"z80": [" ld a, vv1", " ld hl, vv1", " jp vv1", " ld (ix+1), vv1"], "sm83": [" ld a, vv1", " ld hl, vv1", " jp vv1"],
@@ -183,7 +191,7 @@ def run(ck):
         want = expected_after(t, before)
         if after.canon() != want:
             what = "%s: `%s` with vv1 = %d%s: defined before -> %s, defined after -> %s" % (
-                arch, stmt.strip(), v, (" (chained)" if ch == 1 else " (diamond chain)" if ch else ""), before.canon() if want == before.canon() else "(expected) " + want,
+                arch, stmt.strip(), v, (" (chained)" if ch == 1 else " (diamond chain)" if ch == 2 else (" (chain of %d definitions)" % ch) if ch else ""), before.canon() if want == before.canon() else "(expected) " + want,
                 after.canon() + ((" " + (after.msg or "").replace("\n", " ")[-90:]) if not after.ok else ""))
             if arch == "sm83" and stmt.strip().startswith("ldh") and 0xFF00 <= v <= 0xFFFF and before.ok and after.kind == "ERR":
                 ck.known_hit("sm83-ldh-high-page-deferred", "`%s` / `@defn vv1, $%x`" % (stmt.strip(), v))
